@@ -461,6 +461,9 @@ func (s *Sim) Run() *Verdict {
 		if liveFG == 0 {
 			return nil
 		}
+		if len(ready) == 0 && s.reapExterns() {
+			continue
+		}
 		if len(ready) == 0 {
 			// Nothing runnable: let the fake clock advance to the next timer
 			// (or to the end of the earliest stall).
